@@ -1,20 +1,26 @@
 /-
   C12 helper lemmas, part 3: two heaps that agree on the shared regions and in which run r2's arena
-  is run r1's arena with the region renamed (`Twin r1 r2 h h'`).
+  is run r1's arena with the region renamed (`HTwin r1 r2 h h'`); two states (`Twin`): twin heaps and
+  run r2 is over in the one iff run r1 is over in the other.
 
   `effect_twin`: an operation computes, in run r2 of h', the renamed effect it computes in run r1
   of h – it reads nothing but the run's own arena and the shared arenas.  With r1 = r2 this is
   "what run r does depends only on its own arena and the shared arenas" (the interleaving theorem);
-  with r1 ≠ r2 it is "a second run does what the first did" (the re-run theorem).
+  with r1 ≠ r2 it is "a second run does what the first did" (the re-run theorem).  In particular the
+  operation RAISES in the one iff it raises in the other: the two runs end at the same operation.
 -/
 import Props.Lemmas.C12_Sep
 
 namespace Pypyr.C12
 open Pypyr.RunHeap
 
-structure Twin (r1 r2 : Nat) (h h' : Heap) : Prop where
+structure HTwin (r1 r2 : Nat) (h h' : Heap) : Prop where
   shared : ∀ g, g.isShared = true → h'.arena g = h.arena g
   own : h'.arena (.run r2) = (h.arena (.run r1)).map (renCell r1 r2)
+
+structure Twin (r1 r2 : Nat) (st st' : State) : Prop where
+  heap : HTwin r1 r2 st.heap st'.heap
+  dead : st'.dead r2 = st.dead r1
 
 def renEffect (r1 r2 : Nat) (e : Effect) : Effect :=
   ⟨e.allocs.map (renCell r1 r2), e.write.map fun xc => (ren r1 r2 xc.1, renCell r1 r2 xc.2)⟩
@@ -22,23 +28,23 @@ def renEffect (r1 r2 : Nat) (e : Effect) : Effect :=
 section
 variable {r1 r2 : Nat} {h h' : Heap}
 
-theorem twin_len (hT : Twin r1 r2 h h') : (h'.arena (.run r2)).length = (h.arena (.run r1)).length := by
+theorem twin_len (hT : HTwin r1 r2 h h') : (h'.arena (.run r2)).length = (h.arena (.run r1)).length := by
   rw [hT.own, List.length_map]
 
-theorem twin_get (hT : Twin r1 r2 h h') {x : Ref} (hx : x.reg = .run r1) :
+theorem twin_get (hT : HTwin r1 r2 h h') {x : Ref} (hx : x.reg = .run r1) :
     h'.get? (ren r1 r2 x) = (h.get? x).map (renCell r1 r2) := by
   rw [ren_run hx]
   simp only [Heap.get?, hT.own, hx, List.getElem?_map]
 
-theorem twin_get_root (hT : Twin r1 r2 h h') :
+theorem twin_get_root (hT : HTwin r1 r2 h h') :
     h'.get? (root r2) = (h.get? (root r1)).map (renCell r1 r2) := by
   rw [← ren_root r1 r2]; exact twin_get hT rfl
 
-theorem twin_get_shared (hT : Twin r1 r2 h h') {x : Ref} (hx : x.reg.isShared = true) :
+theorem twin_get_shared (hT : HTwin r1 r2 h h') {x : Ref} (hx : x.reg.isShared = true) :
     h'.get? x = h.get? x := by
   simp only [Heap.get?, hT.shared _ hx]
 
-theorem twin_resolve (hS : Sep h) (hT : Twin r1 r2 h h') {p : Path} {a : Ref} (ha : a.reg = .run r1) :
+theorem twin_resolve (hS : Sep h) (hT : HTwin r1 r2 h h') {p : Path} {a : Ref} (ha : a.reg = .run r1) :
     resolve h' (ren r1 r2 a) p = (resolve h a p).map (ren r1 r2) := by
   induction p generalizing a with
   | nil => rfl
@@ -55,34 +61,26 @@ theorem twin_resolve (hS : Sep h) (hT : Twin r1 r2 h h') {p : Path} {a : Ref} (h
         simp only [Option.map_some]
         exact ih (by rw [← ha]; exact hS.get hc b (follow_mem hb))
 
-theorem twin_resolve_root (hS : Sep h) (hT : Twin r1 r2 h h') (p : Path) :
+theorem twin_resolve_root (hS : Sep h) (hT : HTwin r1 r2 h h') (p : Path) :
     resolve h' (root r2) p = (resolve h (root r1) p).map (ren r1 r2) := by
   rw [← ren_root r1 r2]; exact twin_resolve hS hT rfl
 
 theorem shift_ren {g : Region} {base : Nat} {c : Cell} (hc : CellIn g c) :
     renCell r1 r2 (Cell.shift g (.run r1) base c) = Cell.shift g (.run r2) base c := by
-  cases c with
-  | leaf v => rfl
-  | list rs =>
-    simp only [Cell.shift, renCell, List.map_map, Cell.list.injEq]
-    apply List.map_congr_left
-    intro x hx
-    simp only [Function.comp, shiftRef_reg (hc x hx), ren_mk]
-  | dict kvs =>
-    simp only [Cell.shift, renCell, List.map_map, Cell.dict.injEq]
-    apply List.map_congr_left
-    intro kv hkv
-    simp only [Function.comp, shiftRef_reg (cellIn_dict.1 hc kv hkv), ren_mk]
+  simp only [renCell, Cell.shift, mapRefs_mapRefs]
+  apply mapRefs_congr
+  intro x hx
+  simp only [shiftRef_reg (hc x hx), ren_mk]
 
-theorem twin_copyArena (hS : Sep h) (hT : Twin r1 r2 h h') {g : Region} (hg : g.isShared = true)
+theorem twin_copyArena (hS : Sep h) (hT : HTwin r1 r2 h h') {g : Region} (hg : g.isShared = true)
     (base : Nat) :
     copyArena h' g (.run r2) base = (copyArena h g (.run r1) base).map (renCell r1 r2) := by
   simp only [copyArena, hT.shared g hg, List.map_map]
   apply List.map_congr_left
   intro c hc
-  simp only [Function.comp, shift_ren (hS g c hc)]
+  simp only [Function.comp, shift_ren (hS.closed g c hc)]
 
-theorem twin_isPresent (hT : Twin r1 r2 h h') {rs : List Ref} (hrs : ∀ y ∈ rs, y.reg = .run r1)
+theorem twin_isPresent (hT : HTwin r1 r2 h h') {rs : List Ref} (hrs : ∀ y ∈ rs, y.reg = .run r1)
     (v : Block) : isPresent h' (rs.map (ren r1 r2)) v = isPresent h rs v := by
   unfold isPresent
   split
@@ -99,7 +97,7 @@ theorem twin_isPresent (hT : Twin r1 r2 h h') {rs : List Ref} (hrs : ∀ y ∈ r
 
 /-! ### the helpers of `effect` -/
 
-theorem updateCopy_twin (hS : Sep h) (hT : Twin r1 r2 h h') (src : Ref) :
+theorem updateCopy_twin (hS : Sep h) (hT : HTwin r1 r2 h h') (src : Ref) :
     updateCopy h' r2 src = (updateCopy h r1 src).map (renEffect r1 r2) := by
   unfold updateCopy
   by_cases hg : src.reg.isShared = true
@@ -109,28 +107,26 @@ theorem updateCopy_twin (hS : Sep h) (hT : Twin r1 r2 h h') (src : Ref) :
     | none => rfl
     | some c =>
       cases c with
-      | leaf v => rfl
-      | list rs => rfl
       | dict kvs =>
         cases hsrc : h.get? src with
         | none => rfl
         | some cs =>
           cases cs with
-          | leaf v => rfl
-          | list rs => rfl
           | dict skvs =>
-            simp only [Option.map_some, renCell, renEffect, Option.some.injEq]
+            simp only [Option.map_some, renCell_dict, renEffect, Option.some.injEq]
             congr 2
-            simp only [Prod.mk.injEq, ren_root, true_and, Cell.dict.injEq]
+            simp only [Prod.mk.injEq, ren_root, true_and, CellOf.dict.injEq]
             rw [← kvUpdate_map, List.map_map]
             congr 1
             apply List.map_congr_left
             intro kv hkv
             have hk : kv.2.reg = src.reg := cellIn_dict.1 (hS.get hsrc) kv hkv
             simp only [Function.comp, shiftRef_reg hk, ren_mk]
+          | _ => rfl
+      | _ => rfl
   · simp only [hg]; rfl
 
-theorem extendEffect_twin (hS : Sep h) (hT : Twin r1 r2 h h') (p : Path) (vs : List Block) :
+theorem extendEffect_twin (hS : Sep h) (hT : HTwin r1 r2 h h') (p : Path) (vs : List Block) :
     extendEffect h' r2 p vs = (extendEffect h r1 p vs).map (renEffect r1 r2) := by
   unfold extendEffect
   rw [twin_resolve_root hS hT]
@@ -144,13 +140,12 @@ theorem extendEffect_twin (hS : Sep h) (hT : Twin r1 r2 h h') (p : Path) (vs : L
     | none => rfl
     | some c =>
       cases c with
-      | leaf v => rfl
-      | dict kvs => rfl
       | list rs =>
-        simp only [Option.map_some, renCell, renEffect, (relocAll_ren r1 r2 _ vs).1,
+        simp only [Option.map_some, renCell_list, renEffect, (relocAll_ren r1 r2 _ vs).1,
           (relocAll_ren r1 r2 _ vs).2, List.map_append]
+      | _ => rfl
 
-theorem dictSetEffect_twin (hS : Sep h) (hT : Twin r1 r2 h h') (p : Path) (k : String) (v : Block) :
+theorem dictSetEffect_twin (hS : Sep h) (hT : HTwin r1 r2 h h') (p : Path) (k : String) (v : Block) :
     dictSetEffect h' r2 p k v = (dictSetEffect h r1 p k v).map (renEffect r1 r2) := by
   unfold dictSetEffect
   cases hv : v.isEmpty with
@@ -168,13 +163,35 @@ theorem dictSetEffect_twin (hS : Sep h) (hT : Twin r1 r2 h h') (p : Path) (k : S
       | none => rfl
       | some c =>
         cases c with
-        | leaf v => rfl
-        | list rs => rfl
         | dict kvs =>
-          simp only [Option.map_some, renCell, renEffect, relocate_ren, ← kvSet_map, ren_mk]
+          simp only [Option.map_some, renCell_dict, renEffect, relocate_ren, ← kvSet_map, ren_mk]
+        | _ => rfl
+
+/-- Binding a formatted copy of a shared object: the same in both runs. -/
+theorem fmtBind_twin (hS : Sep h) (hT : HTwin r1 r2 h h') (p : Path) (k : String) {g : Region}
+    (hg : g.isShared = true) {y : Ref} (hy : y.reg = g) :
+    fmtBind h' r2 p k g y [] = (fmtBind h r1 p k g y []).map (renEffect r1 r2) := by
+  have hno : objIdx h g = [] := objIdx_shared hS hg
+  have hno' : objIdx h' g = [] := by unfold objIdx; rw [hT.shared g hg]; exact hno
+  unfold fmtBind
+  simp only [hno, hno', List.append_nil, fmtArena_nil, shiftKeep_nil]
+  rw [twin_resolve_root hS hT]
+  cases hx : resolve h (root r1) p with
+  | none => rfl
+  | some x =>
+    have hxr : x.reg = .run r1 := resolve_reg hS hx
+    simp only [Option.map_some]
+    rw [twin_get hT hxr, twin_len hT, twin_copyArena hS hT hg]
+    cases hc : h.get? x with
+    | none => rfl
+    | some c =>
+      cases c with
+      | dict kvs =>
+        simp only [Option.map_some, renCell_dict, renEffect, ← kvSet_map, shiftRef_reg hy, ren_mk]
+      | _ => rfl
 
 /-- An operation does in run r2 of `h'` what it does in run r1 of `h`, renamed. -/
-theorem effect_twin (hS : Sep h) (hT : Twin r1 r2 h h') {op : Op} (hf : op.fixed = true) :
+theorem effect_twin (hS : Sep h) (hT : HTwin r1 r2 h h') {op : Op} (hf : op.fixed = true) :
     effect h' r2 op = (effect h r1 op).map (renEffect r1 r2) := by
   cases op with
   | start b =>
@@ -193,10 +210,9 @@ theorem effect_twin (hS : Sep h) (hT : Twin r1 r2 h h') {op : Op} (hf : op.fixed
       | none => rfl
       | some c =>
         cases c with
-        | leaf v => rfl
-        | list rs => rfl
         | dict kvs =>
-          simp only [Option.map_some, renCell, renEffect, ← kvSet_map, ren_mk, ren_root]
+          simp only [Option.map_some, renCell_dict, renEffect, ← kvSet_map, ren_mk, ren_root]
+        | _ => rfl
     · simp only [hg]; rfl
   | inAlias key src => cases hf
   | configvarsCopy => simp only [effect]; exact updateCopy_twin hS hT _
@@ -209,10 +225,9 @@ theorem effect_twin (hS : Sep h) (hT : Twin r1 r2 h h') {op : Op} (hf : op.fixed
     | none => rfl
     | some c =>
       cases c with
-      | leaf v => rfl
-      | list rs => rfl
       | dict kvs =>
-        simp only [Option.map_some, renCell, renEffect, kvErase_map, ren_root, List.map_nil]
+        simp only [Option.map_some, renCell_dict, renEffect, kvErase_map, ren_root, List.map_nil]
+      | _ => rfl
   | setKey key v => simp only [effect]; exact dictSetEffect_twin hS hT _ _ _
   | dictSetAt p k v => simp only [effect]; exact dictSetEffect_twin hS hT _ _ _
   | appendAt p v => simp only [effect]; exact extendEffect_twin hS hT _ _
@@ -225,19 +240,39 @@ theorem effect_twin (hS : Sep h) (hT : Twin r1 r2 h h') {op : Op} (hf : op.fixed
     | some x =>
       have hxr : x.reg = .run r1 := resolve_reg hS hx
       simp only [Option.map_some]
-      rw [twin_get hT hxr]
+      rw [twin_get hT hxr, twin_len hT]
       cases hc : h.get? x with
       | none => rfl
       | some c =>
         cases c with
-        | leaf v => rfl
-        | dict kvs => rfl
-        | list rs =>
-          simp only [Option.map_some, renCell]
-          rw [twin_isPresent hT (fun y hy => by rw [← hxr]; exact hS.get hc y hy), extendEffect_twin hS hT]
+        | set rs =>
+          simp only [Option.map_some, renCell_set]
+          rw [twin_isPresent hT (fun y hy => by rw [← hxr]; exact hS.get hc y hy)]
           split
           · rfl
-          · rfl
+          · simp only [Option.map_some, renCell_set, renEffect, (relocAll_ren r1 r2 _ [v]).1,
+              (relocAll_ren r1 r2 _ [v]).2, List.map_append]
+        | _ => rfl
+  | attrSetAt p k v =>
+    simp only [effect]
+    cases hv : v.isEmpty with
+    | true => rfl
+    | false =>
+      simp only [Bool.false_eq_true, if_false]
+      rw [twin_resolve_root hS hT]
+      cases hx : resolve h (root r1) p with
+      | none => rfl
+      | some x =>
+        have hxr : x.reg = .run r1 := resolve_reg hS hx
+        simp only [Option.map_some]
+        rw [twin_get hT hxr, twin_len hT]
+        cases hc : h.get? x with
+        | none => rfl
+        | some c =>
+          cases c with
+          | obj cls attrs =>
+            simp only [Option.map_some, renCell_obj, renEffect, relocate_ren, ← kvSet_map, ren_mk]
+          | _ => rfl
   | copyKey src dst =>
     simp only [effect]
     rw [twin_get_root hT]
@@ -245,35 +280,22 @@ theorem effect_twin (hS : Sep h) (hT : Twin r1 r2 h h') {op : Op} (hf : op.fixed
     | none => rfl
     | some c =>
       cases c with
-      | leaf v => rfl
-      | list rs => rfl
       | dict kvs =>
-        simp only [Option.map_some, renCell, kvGet?_map]
+        simp only [Option.map_some, renCell_dict, kvGet?_map]
         cases hy : kvGet? kvs src with
         | none => rfl
-        | some y => simp only [Option.map_some, renEffect, renCell, kvSet_map, ren_root, List.map_nil]
+        | some y => simp only [Option.map_some, renEffect, renCell_dict, kvSet_map, ren_root, List.map_nil]
+      | _ => rfl
   | fmtSetAt p k src keep =>
     have hk : keep = [] := keep_nil (by simpa only [Op.fixed] using hf)
     subst hk
-    simp only [effect, fmtArena_nil, shiftKeep_nil]
+    simp only [effect]
     by_cases hg : src.reg.isShared = true
     · simp only [hg, if_true]
-      rw [twin_resolve_root hS hT]
-      cases hx : resolve h (root r1) p with
-      | none => rfl
-      | some x =>
-        have hxr : x.reg = .run r1 := resolve_reg hS hx
-        simp only [Option.map_some]
-        rw [twin_get hT hxr, twin_len hT, twin_copyArena hS hT hg]
-        cases hc : h.get? x with
-        | none => rfl
-        | some c =>
-          cases c with
-          | leaf v => rfl
-          | list rs => rfl
-          | dict kvs =>
-            simp only [Option.map_some, renCell, renEffect, ← kvSet_map, shiftRef_reg, ren_mk]
+      exact fmtBind_twin hS hT p k hg rfl
     · simp only [hg]; rfl
+  | fmtFrom src sp p k byRef => cases hf
+  | fail => rfl
 
 /-! ### applying twin effects -/
 
@@ -301,8 +323,8 @@ theorem ownAfter_ren {a : Arena} {e : Effect} (hL : Local r1 e) :
     have hx := (hL.write x c hw).1
     simp [renEffect, hw, ren_run hx, List.map_set]
 
-theorem apply_twin (hT : Twin r1 r2 h h') {e : Effect} (hL : Local r1 e) :
-    Twin r1 r2 (apply h r1 e) (apply h' r2 (renEffect r1 r2 e)) := by
+theorem apply_twin (hT : HTwin r1 r2 h h') {e : Effect} (hL : Local r1 e) :
+    HTwin r1 r2 (apply h r1 e) (apply h' r2 (renEffect r1 r2 e)) := by
   have hL' := renEffect_local (r2 := r2) hL
   constructor
   · intro g hg
@@ -310,32 +332,50 @@ theorem apply_twin (hT : Twin r1 r2 h h') {e : Effect} (hL : Local r1 e) :
     exact hT.shared g hg
   · rw [apply_arena_own hL', apply_arena_own hL, hT.own, ownAfter_ren hL]
 
-theorem step_twin (hS : Sep h) (hT : Twin r1 r2 h h') {op : Op} (hf : op.fixed = true) :
-    Twin r1 r2 (step h r1 op) (step h' r2 op) := by
-  unfold step
-  rw [effect_twin hS hT hf]
-  cases he : effect h r1 op with
-  | none => exact hT
-  | some e => exact apply_twin hT (effect_local hS hf he)
-
 end
+
+/-- One operation keeps two runs twins: the same effect (renamed), or both raise and are over. -/
+theorem step_twin {r1 r2 : Nat} {st st' : State} (hS : Sep st.heap) (hT : Twin r1 r2 st st') {op : Op}
+    (hf : op.fixed = true) : Twin r1 r2 (step st r1 op) (step st' r2 op) := by
+  unfold step
+  rw [hT.dead, effect_twin hS hT.heap hf]
+  cases hd : st.dead r1 with
+  | true => simpa using hT
+  | false =>
+    simp only [Bool.false_eq_true, if_false]
+    cases he : effect st.heap r1 op with
+    | none => exact ⟨hT.heap, by simp [kill]⟩
+    | some e => exact ⟨apply_twin hT.heap (effect_local hS hf he), hT.dead.trans hd ▸ hT.dead⟩
 
 /-! ### schedules -/
 
 /-- Two runs executing the same operation list stay twins. -/
-theorem exec_solo_twin {r1 r2 : Nat} {ops : List Op} (hf : ∀ o ∈ ops, o.fixed = true) {h h' : Heap}
-    (hS : Sep h) (hT : Twin r1 r2 h h') :
-    Twin r1 r2 (exec (solo r1 ops) h) (exec (solo r2 ops) h') := by
-  induction ops generalizing h h' with
+theorem exec_solo_twin {r1 r2 : Nat} {ops : List Op} (hf : ∀ o ∈ ops, o.fixed = true) {st st' : State}
+    (hS : Sep st.heap) (hT : Twin r1 r2 st st') :
+    Twin r1 r2 (exec (solo r1 ops) st) (exec (solo r2 ops) st') := by
+  induction ops generalizing st st' with
   | nil => exact hT
   | cons o rest ih =>
     have ho := hf o List.mem_cons_self
     exact ih (fun o' ho' => hf o' (List.mem_cons_of_mem _ ho')) (step_sep hS r1 ho) (step_twin hS hT ho)
 
+/-- An operation of another run keeps run r the twin of itself elsewhere. -/
+theorem twin_step_other {r r' : Nat} {st st' : State} (hS : Sep st.heap) (hT : Twin r r st st') {op : Op}
+    (hop : op.fixed = true) (hr : r' ≠ r) : Twin r r (step st r' op) st' := by
+  refine ⟨⟨?_, ?_⟩, ?_⟩
+  · intro g hg
+    rw [step_arena_other hS r' hop (shared_ne_run hg r')]
+    exact hT.heap.shared g hg
+  · have hne : Region.run r ≠ Region.run r' := by intro e; cases e; exact hr rfl
+    rw [step_arena_other hS r' hop hne]
+    exact hT.heap.own
+  · rw [step_dead_other st op (Ne.symm hr)]
+    exact hT.dead
+
 /-- Run r inside any schedule stays the twin of run r executing alone. -/
-theorem exec_proj_twin {r : Nat} {s : Sched} (hs : SchedFixed s) {h h' : Heap}
-    (hS : Sep h) (hT : Twin r r h h') : Twin r r (exec s h) (exec (proj r s) h') := by
-  induction s generalizing h h' with
+theorem exec_proj_twin {r : Nat} {s : Sched} (hs : SchedFixed s) {st st' : State}
+    (hS : Sep st.heap) (hT : Twin r r st st') : Twin r r (exec s st) (exec (proj r s) st') := by
+  induction s generalizing st st' with
   | nil => exact hT
   | cons e rest ih =>
     obtain ⟨r', op⟩ := e
@@ -348,17 +388,12 @@ theorem exec_proj_twin {r : Nat} {s : Sched} (hs : SchedFixed s) {h h' : Heap}
       exact ih hs.tail hS1 (step_twin hS hT hop)
     · have : proj r ((r', op) :: rest) = proj r rest := by simp [proj, hr]
       rw [this]
-      refine ih hs.tail hS1 ⟨?_, ?_⟩
-      · intro g hg
-        rw [step_arena_other hS r' hop (shared_ne_run hg r')]
-        exact hT.shared g hg
-      · have hne : Region.run r ≠ Region.run r' := by intro e; cases e; exact hr rfl
-        show h'.arena (.run r) = _
-        rw [step_arena_other hS r' hop hne]
-        exact hT.own
+      exact ih hs.tail hS1 (twin_step_other hS hT hop hr)
 
-theorem twin_refl (r : Nat) (h : Heap) : Twin r r h h :=
+theorem htwin_refl (r : Nat) (h : Heap) : HTwin r r h h :=
   ⟨fun _ _ => rfl, (map_renCell_self r _).symm⟩
+
+theorem twin_refl (r : Nat) (st : State) : Twin r r st st := ⟨htwin_refl r _, rfl⟩
 
 /-! ### deep values -/
 
@@ -381,14 +416,29 @@ theorem deepVal_region {h h' : Heap} (hS : Sep h) {g : Region} (hg : h'.arena g 
         apply List.map_congr_left
         intro y hy
         exact ih (by rw [← hx]; exact hin y hy)
+      | tuple rs =>
+        simp only [Val.tuple.injEq]
+        apply List.map_congr_left
+        intro y hy
+        exact ih (by rw [← hx]; exact hin y hy)
+      | set rs =>
+        simp only [Val.set.injEq]
+        apply List.map_congr_left
+        intro y hy
+        exact ih (by rw [← hx]; exact hin y hy)
       | dict kvs =>
         simp only [Val.dict.injEq]
         apply List.map_congr_left
         intro kv hkv
         rw [ih (by rw [← hx]; exact cellIn_dict.1 hin kv hkv)]
+      | obj cls attrs =>
+        simp only [Val.dict.injEq, List.cons.injEq, true_and]
+        apply List.map_congr_left
+        intro kv hkv
+        rw [ih (by rw [← hx]; exact cellIn_obj.1 hin kv hkv)]
 
 /-- Twins have equal deep values at corresponding addresses. -/
-theorem deepVal_twin {r1 r2 : Nat} {h h' : Heap} (hS : Sep h) (hT : Twin r1 r2 h h') (n : Nat)
+theorem deepVal_twin {r1 r2 : Nat} {h h' : Heap} (hS : Sep h) (hT : HTwin r1 r2 h h') (n : Nat)
     {x : Ref} (hx : x.reg = .run r1) : deepVal n h' (ren r1 r2 x) = deepVal n h x := by
   induction n generalizing x with
   | zero => rfl
@@ -401,15 +451,31 @@ theorem deepVal_twin {r1 r2 : Nat} {h h' : Heap} (hS : Sep h) (hT : Twin r1 r2 h
       cases c with
       | leaf v => rfl
       | list rs =>
-        simp only [Option.map_some, renCell, List.map_map, Val.list.injEq]
+        simp only [Option.map_some, renCell, CellOf.mapRefs, List.map_map, Val.list.injEq]
+        apply List.map_congr_left
+        intro y hy
+        exact ih (by rw [← hx]; exact hin y hy)
+      | tuple rs =>
+        simp only [Option.map_some, renCell, CellOf.mapRefs, List.map_map, Val.tuple.injEq]
+        apply List.map_congr_left
+        intro y hy
+        exact ih (by rw [← hx]; exact hin y hy)
+      | set rs =>
+        simp only [Option.map_some, renCell, CellOf.mapRefs, List.map_map, Val.set.injEq]
         apply List.map_congr_left
         intro y hy
         exact ih (by rw [← hx]; exact hin y hy)
       | dict kvs =>
-        simp only [Option.map_some, renCell, List.map_map, Val.dict.injEq]
+        simp only [Option.map_some, renCell, CellOf.mapRefs, List.map_map, Val.dict.injEq]
         apply List.map_congr_left
         intro kv hkv
         simp only [Function.comp]
         rw [ih (by rw [← hx]; exact cellIn_dict.1 hin kv hkv)]
+      | obj cls attrs =>
+        simp only [Option.map_some, renCell, CellOf.mapRefs, List.map_map, Val.dict.injEq, List.cons.injEq, true_and]
+        apply List.map_congr_left
+        intro kv hkv
+        simp only [Function.comp]
+        rw [ih (by rw [← hx]; exact cellIn_obj.1 hin kv hkv)]
 
 end Pypyr.C12
